@@ -52,7 +52,9 @@ WORLDS = {
     'discrete_3x2x2_wrap': ('DiscreteWorld', (3, 2, 2), (2, 1, 1), True),
 }
 QUICK = ['plain', 'space_3x2x0', 'discrete_3x2x2', 'line_3', 'grid_3x2', 'space_0.5x2x0', 'space_3x2x0_wrap',
-         'grid_3x2_wrap']
+         'grid_3x2_wrap', 'space_2.5x0x1', 'discrete_0x2x3']
+# identifiers that are not strings (pool name -> the id really used): tuples, numbers, the empty tuple
+ODD_IDS = {'a1': (0, 1), 'a2': 7, 'a3': (), 'a4': 2.5, 'zz': ('zz',)}
 
 META = {
     'rule': 'BFS over add/remove histories per world kind to the fixpoint; in every state the complete fault menu '
@@ -74,11 +76,13 @@ class World:
 
 
 class Harness:
-    def __init__(self, kind, aliases=False, foreign=False):
+    def __init__(self, kind, aliases=False, foreign=False, odd_ids=False):
         self.kind = kind
+        self.odd_ids = odd_ids
+        self.R = (lambda name: ODD_IDS.get(name, name)) if odd_ids else (lambda name: name)
         self.aliases = aliases      # addAgent / removeAgent / getAgents (deprecated spellings) as entry points
         self.foreign = foreign      # the pool includes a4f, an agent built for another model
-        self.config = {'world': kind, 'aliases': aliases, 'foreign': foreign}
+        self.config = {'world': kind, 'aliases': aliases, 'foreign': foreign, 'odd_ids': odd_ids}
         self.agents = [a for a in AGENTS if foreign or a[0] not in FOREIGN]
         self.spec = WORLDS[kind]
         self.cn = Canon(drop={('DiscreteWorld', 'cells'), ('LineWorld', 'cells'), ('GridWorld', 'cells')})
@@ -106,7 +110,7 @@ class Harness:
         Homed.add_class_component(X(Homed, w.model))
         for key, aid, types in self.agents + [('probe', 'probe', ('X',))]:
             owner = w.m2 if key in FOREIGN else w.model
-            a = (Homed if key == 'a2' else Core.Agent)(aid, owner)
+            a = (Homed if key == 'a2' else Core.Agent)(self.R(aid), owner)
             for T in types:
                 if T == 'PC':
                     if self.spec:
@@ -180,13 +184,13 @@ class Harness:
         else:
             aid = op[1]
             if aid in res:
-                (env.removeAgent if self.aliases else env.remove_agent)(aid)      # removing a present agent always succeeds
+                (env.removeAgent if self.aliases else env.remove_agent)(self.R(aid))      # removing a present agent always succeeds
                 w.ref.remove(res[aid])
                 if self.spec and Envs.PositionComponent in w.agents[res[aid]]:
                     raise Violation(f'{res[aid]} still carries a position after leaving the world')
             else:
-                self._rejected(w, lambda: env.remove_agent(aid), Core.AgentNotFoundError,
-                               f'remove of non-resident id {aid}')
+                self._rejected(w, lambda: env.remove_agent(self.R(aid)), Core.AgentNotFoundError,
+                               f'remove of non-resident id {self.R(aid)!r}')
 
     def _rejected(self, w, call, exc_type, what):
         before = self.snapshot(w)
@@ -240,11 +244,12 @@ class Harness:
         if len(env) != len(exp) or [a for a in env] != exp:
             raise Violation('len / iteration changed after listings were modified or shuffled')
         res = self._resident_ids(w)
-        for aid in self.ids + ['probe', env.id]:      # the environment's own id names no agent in it
-            want = w.agents[res[aid]] if aid in res else None
+        for name in self.ids + ['probe', env.id]:      # the environment's own id names no agent in it
+            aid = self.R(name)
+            want = w.agents[res[name]] if name in res else None
             got = env.get_agent(aid)
             if got is not want:
-                raise Violation(f'get_agent({aid!r}) answers the wrong object', expected=res.get(aid),
+                raise Violation(f'get_agent({aid!r}) answers the wrong object', expected=res.get(name),
                                 observed=self._key(w, got))
             if want is not None:
                 if env.get_agent(aid, True) is not want:
@@ -262,8 +267,8 @@ class Harness:
                     outcomes.append(('dup', other))
         for aid in self.ids:
             if aid not in res:
-                self._rejected(w, lambda i=aid: env.remove_agent(i), Core.AgentNotFoundError,
-                               f'remove of non-resident id {aid}')
+                self._rejected(w, lambda i=self.R(aid): env.remove_agent(i), Core.AgentNotFoundError,
+                               f'remove of non-resident id {self.R(aid)!r}')
         if self.spec:
             cls, args, pos = self.spec[:3]
             dims = tuple(args) + (0,) * (3 - len(args))
@@ -436,9 +441,9 @@ def run(ctx):
     kinds = QUICK if ctx.tier == 'quick' else list(WORLDS)
     fk = ('plain', 'grid_3x2') if ctx.tier == 'quick' else tuple(kinds)
     plan = [(k, False, False) for k in kinds] + [('plain', True, False), ('grid_3x2', True, False)] + \
-           [(k, False, True) for k in fk]
+           [(k, False, True) for k in fk] + [('plain', False, False, True), ('line_3', False, False, True)]
     if ctx.small:
-        plan = [(k, False, False) for k in kinds]
+        plan = [(k, False, False) for k in kinds[:8]] + [('plain', False, False, True)]
     for kind in ('plain', 'grid'):
         case = {'leg': 'crowd', 'kind': kind, 'n': 150 if ctx.small else 1500}
         ctx.traces += 1
@@ -455,9 +460,10 @@ def run(ctx):
 
 
 def explore_leg(ctx, item):
-    kind, al, fo = item
-    h = Harness(kind, al, fo)
-    name = kind + ('+deprecated_entry_points' if al else '') + ('+foreign_agent' if fo else '')
+    kind, al, fo = item[:3]
+    odd = len(item) > 3 and item[3]
+    h = Harness(kind, al, fo, odd)
+    name = kind + ('+deprecated_entry_points' if al else '') + ('+foreign_agent' if fo else '') + ('+odd_ids' if odd else '')
     # the model is also deep-copied in every state of the plain / grid legs (hbfs clone mode)
     r = hbfs.explore(ctx, h, name, max_depth=30, procs=1, clone=(kind in ('plain', 'grid_3x2') and not al and not fo))
     ctx.leg(name, **r)
@@ -470,4 +476,4 @@ def replay(case):
         hbfs._guard(crowd_case, case)
         return
     hbfs.replay_case(Harness(case['config']['world'], case['config'].get('aliases', False),
-                             case['config'].get('foreign', False)), case)
+                             case['config'].get('foreign', False), case['config'].get('odd_ids', False)), case)
